@@ -25,3 +25,8 @@ chk("C11","exploration",
  "Decoder: every type x every member name x 36 junk values x {scalar, list} through decode-encode-decode-encode (about 0.9 M documents) plus every vocabulary example with each node mutated; handlers: for each of ~65 scenarios covering all entry points, every JSON node of the request body and of every stored / dereferenced document the run reads is mutated by 19 operators one at a time (thorough: two at a time), plus whole-document replacements and recursion limits; the oracle is: no panic (recovered and attributed to the top library frame and its source line) and return within a seam-call horizon; shards run in worker processes so that a fatal error is attributed, not fatal to the check.",
  "Bounded junk alphabet and grammar mutations replace arbitrary byte strings (coverage-guided fuzzing is sampling and is not used). A hang that makes no seam call is caught only by the worker timeout.",
  "bounded-exhaustive mutation enumeration (deviation bound 1 / 2) over request bodies and environment documents","DESIGN.md 3 C11")
+
+chk("C02","exploration",
+ "Federation graphs (actors dereferencable / with stored inbox / missing / garbled / unknown type, nested and cyclic collections and pages, Public in both spellings, the sender) x every ordered sequence of <= 2 (thorough 3) addressed entries x 3 placements over the five addressing properties x depth limits are delivered through Send and client POST on the real code; an independent recursive function over the graph description gives the expected inbox set and the set of IRIs that may be dereferenced; the BatchDeliver call must be single, duplicate-free and equal to the expected set.",
+ "Trusted: the graph oracle; order of recipients and repeated dereferences are not asserted; non-actor / inbox-less documents are outside the alphabet.",
+ "bounded-exhaustive enumeration of federation graphs and addressings against a reference model","DESIGN.md 3 C02")
